@@ -72,8 +72,15 @@ def run(R, pid, tier, seed):
     elif pid == "C12":
         R.assumptions += ["ciborium is NOT modelled: from_reader is an arbitrary function of exactly the slice it is given, into_writer yields an arbitrary byte string or "
                           "an error; what is decided is the framing, the allocation bound and that the stream stays in step",
-                          "not covered: the serve() loop (no change to the tree before a valid prologue; exit status), spinning after EOF"]
+                          "the serve() dispatch loop is executed from MIR with read_magic / read_frame / write_frame and the handlers as summaries: nothing but creating the served directory and its .copia directory happens before the prologue is accepted, every frame goes to exactly its handler, nothing is read or dispatched after the end of input / an error / Bye (sessions of 2 (quick) / 3 (thorough) frames; the List arm is C13's)"]
         _guard(R, pid, "frames", lambda: hublib.frame_obligations(ctx, R, prover, pid))
+        _guard(R, pid, "serve", lambda: hublib.serve_obligation(ctx, R, prover, pid, 2 if tier == "quick" else 3))
+        from . import hubnative as _hn
+        sp = _hn.serve_prologue_check(R, "%s/serve" % pid, "%s/serve/prologue" % pid)
+        if sp["confirmed"]:
+            R.add("%s/native-serve-prologue" % pid, "violated", confirmed=True, replay_path=sp["replay_path"], key=sp["key"], detail=sp["detail"])
+        else:
+            R.add("%s/native-serve-prologue" % pid, "holds", queries=0, solver_s=0.0, detail=sp["detail"] + "; validation, not the deciding step")
         _guard(R, pid, "handle_put", lambda: hublib.put_obligations(ctx, R, prover, pid, ncap))
     # the ORDER of the real system calls (strace) of a commit / conflict / delete is checked on every run too: it holds the line when a
     # change makes the symbolic side inconclusive
@@ -109,6 +116,11 @@ def run(R, pid, tier, seed):
 
 def replay(path):
     case = json.load(open(path))["case"]
+    if case.get("fn") == "serve_prologue":
+        from mirsmt.report import Runner
+        r = hubnative.serve_prologue_check(Runner("C12", "quick", "model_checking", 1), "C12/serve/replay", "C12/serve/replay")
+        print(json.dumps(r, indent=1)[:1500])
+        return 0
     obs = case.pop("observed", None)
     case.pop("deviation", None)
     case.pop("expected_refused", None)
